@@ -563,7 +563,7 @@ def _negzero_rule(chk, prog):
             for ps in S:
                 good = False
                 for (op, l, r, toks, ln, rn) in ps:
-                    if ln is not None and "signbit" in ln.macro_names() and op == "==" and (rn is None or rn.v == 0):
+                    if ln is not None and ("signbit" in ln.macro_names() or "signbit(" in l) and op == "==" and (rn is None or rn.v == 0):
                         good = True      # signbit(d) is false
                     if op == "!=" and rn is not None and rn.v == 0 and ln is not None and is_ref(ln) and "int" in (ln.t or ""):
                         good = True      # the integer image is not zero
